@@ -612,8 +612,14 @@ pub fn run(ctx: &Ctx) -> i32 {
             }
             // three quarters of the slots insist on a rule from the clean stratum S0
             let want_s0 = rng.chance(78);
+            // (one slot in 400: an or-group over 120..210 fields, i.e. a matrix with more columns
+            // than one byte can number)
+            let wide = n % 400 == 137 && (shard % 8 == 0 || !ctx.quick());
             let mut ast = match rng.below(100) {
+                _ if wide => gen::wide_matrix_rule(&mut rng),
                 0..=9 => stable_quantifier_rule(&mut rng, &gcfg),
+                // one field with and without casts in one disjunction
+                18..=22 => gen::cast_mix_rule(&mut rng),
                 // blocks over one field in several identifiers (merged by coalesce + shake)
                 10..=17 => gen::nested_family_rule(&mut rng, &gcfg),
                 _ => gen::gen_rule(&mut rng, &gcfg),
@@ -631,7 +637,21 @@ pub fn run(ctx: &Ctx) -> i32 {
                 continue;
             };
             let leaves = gen::collect_leaves(&ast);
-            let docs: Vec<DVal> = (0..docs_per_rule).map(|_| gen::gen_doc(&mut rng, &leaves)).collect();
+            let mut docs: Vec<DVal> = (0..docs_per_rule).map(|_| gen::gen_doc(&mut rng, &leaves)).collect();
+            if wide {
+                // documents that satisfy exactly one block (early, middle, last): the verdict
+                // hangs on one late column
+                if let Some((_, Ident::Seq(blocks))) = ast.idents.first() {
+                    for bi in [0, blocks.len() / 2, blocks.len() - 2, blocks.len() - 1] {
+                        let fields: Vec<(String, DVal)> = blocks[bi]
+                            .iter()
+                            .map(|(k, v)| (k.field.clone(), match v { RVal::Str(s) => DVal::Str(s.trim_end_matches('*').to_string()), _ => DVal::Null }))
+                            .collect();
+                        docs.push(DVal::Obj(fields));
+                    }
+                }
+                rep.count("wide_matrix_rules");
+            }
             check_rule(&mut rep, &ast, &text, &docs, &cfg);
             if n == 0 && shard < 3 {
                 rep.sample(json!({"rule": text, "doc": docs[0].to_json_text(), "switch_sets": 15, "optimisations_per_switch_set": cfg.tries}));
